@@ -840,7 +840,7 @@ func TestVerifC15Replay(t *testing.T) {
 				panic(err)
 			}
 			start := 4096 - 4*n
-			return unsafe.Slice((*float32)(unsafe.Pointer(&mem[start])), n)
+			return (*[1 << 20]float32)(unsafe.Pointer(&mem[start]))[:n:n]
 		}
 		a, b := mk(), mk()
 		for i := range a {
